@@ -35,8 +35,22 @@ def truth(m, ienvs):
     return out
 def b(x):
     return x if isinstance(x, str) else ("1" if x else "0")
+def py_mix_leaf(rng, minor=None):
+    """python_version / python_full_version clauses around one minor release: the bounds at which the two variables are rewritten
+    into each other (X.Y, X.Y.0, and patch levels 1, 5, 10, 20 of X.Y)"""
+    m = minor or rng.choice(["3.7", "3.8", "3.9", "3.10"])
+    if rng.random() < 0.5:
+        return f'python_version {rng.choice(["<", "<=", ">", ">=", "==", "!="])} {MI.q(rng, m)}'
+    return f'python_full_version {rng.choice(["<", "<", "<=", ">", ">=", ">=", "==", "!="])} {MI.q(rng, m + "." + rng.choice(["0", "1", "5", "10", "20"]))}'
+
 def gen_pair(rng, tier, maxleaves=None):
     mx = maxleaves or (3 if tier == "quick" else 5)
+    if rng.random() < 0.12:
+        m = rng.choice(["3.7", "3.8", "3.9", "3.10"])
+        def side():
+            k = rng.choice([1, 1, 2]); ls = [py_mix_leaf(rng, m if rng.random() < 0.8 else None) for _ in range(k)]
+            return rng.choice([" and ", " or "]).join(ls), k, {"pv", "pfv"}
+        return side(), side()
     # same-variable clashes are what the simplifier merges: bias towards few variables
     focus = rng.choice([None, None, ["pv", "pfv"], ["str", "str", "extra"], ["pv", "pfv", "str"], ["extra"], ["rel", "pv"]])
     a = MI.gen_marker(rng, depth=2, leaves=rng.randint(1, mx), focus=focus)
